@@ -28,7 +28,7 @@ Extraction "model.ml"
   spec_cmp spec_merge_ok spec_glb_ok spec_reset_ok spec_intersection_ok spec_apply_ok
   spec_validate_ok spec_inc_ok
   enc dec vclock_codec gcounter_codec pncounter_codec gset_codec reg_codec lww_codec orswot_codec mvreg_codec
-  merkle_codec codec_mapmv codec_mapor codec_mapmm codec_glist codec_list json_size
+  merkle_codec codec_mapmv codec_mapor codec_mapmm codec_mapmo codec_glist codec_list json_size
   deps_clock vec_insert_at vec_remove_at merkle_spec natset_of_list mk_oprec ospec c04_member mvspec gcspec pnspec gsspec maxspec minspec lwwspec glspec lspec
   mkeyspec_ok mspec_keys mspec_entry_clock mspec_clock movalspec_ok mo_entries mo_state_entries
   mv_perm_eqb n_add n_mul z_add z_mul z_opp z_of_n mkqc n_to_nat n_of_nat.
